@@ -13,6 +13,7 @@ import (
 )
 
 type c02Case struct {
+	Bulk      *gen.Bulk     `json:"bulk,omitempty"` // refs generated programmatically (restart-cap shape)
 	Table     gen.TableSpec `json:"table"`
 	ExtraKeys []Str         `json:"extra_keys"`
 	ExtraIdx  []uint64      `json:"extra_idx"`
@@ -20,6 +21,10 @@ type c02Case struct {
 
 func genC02(t *rapid.T) c02Case {
 	c := c02Case{}
+	if rapid.IntRange(0, 199).Draw(t, "bulk") == 77 {
+		c.Table, c.Bulk = drawBulk(t)
+		return c
+	}
 	c.Table = gen.DrawTable(t, gen.TableOpts{MaxRefs: 170, MaxLogs: 50, SmallBlocks: true})
 	ng := gen.NewNameGen(t)
 	n := rapid.IntRange(0, 6).Draw(t, "nextra")
@@ -191,8 +196,62 @@ func CheckSeeks(sigPrefix string, tab reftable.Table, refs []gen.Ref, logs []gen
 	return nil
 }
 
+// bulkSeeks: sampled seeks into one huge block (tens of thousands of restart points).
+func bulkSeeks(rd *reftable.Reader, refs []gen.Ref, o *Obs) error {
+	n := len(refs)
+	var pos []int
+	for i := 0; i < n; i += n/37 + 1 {
+		pos = append(pos, i)
+	}
+	pos = append(pos, 1, 21844, 21845, 21846, 32767, 32768, 65534, 65535, 65536, n-2, n-1)
+	for _, i := range pos {
+		if i < 0 || i >= n {
+			continue
+		}
+		for _, key := range []string{string(refs[i].Name), string(refs[i].Name) + "\x00", string(refs[i].Name[:len(refs[i].Name)-1])} {
+			want := sort.Search(n, func(j int) bool { return string(refs[j].Name) >= key })
+			it, err := rd.SeekRef(key)
+			if err != nil {
+				return Failf("C02/bulk/seekref-error", "SeekRef(%q) in a block of %d records: %v", key, n, err)
+			}
+			for k := 0; k < 3; k++ {
+				var rec reftable.RefRecord
+				ok, err := it.NextRef(&rec)
+				if err != nil {
+					return Failf("C02/bulk/seekref-error", "SeekRef(%q) iteration: %v", key, err)
+				}
+				if want+k >= n {
+					if ok {
+						return Failf("C02/bulk/seekref-mismatch", "SeekRef(%q): record %v beyond the end", key, gen.RefOf(&rec))
+					}
+					break
+				}
+				if !ok || !gen.RefOf(&rec).Equal(refs[want+k]) {
+					return Failf("C02/bulk/seekref-mismatch", "SeekRef(%q) record #%d: got %v (ok=%v) want %v", key, k, gen.RefOf(&rec), ok, refs[want+k])
+				}
+			}
+		}
+	}
+	o.Count("ref_seeks", 3*len(pos))
+	return nil
+}
+
 func propC02(c c02Case, o *Obs) error {
 	spec := c.Table
+	if c.Bulk != nil {
+		spec.Refs = c.Bulk.Expand(spec.Min)
+		o.Class("bulk-restart-cap")
+		data, _, _, err := WriteTable(spec)
+		if err != nil {
+			return Failf("C02/write-error", "%v", err)
+		}
+		rd, err := reftable.NewReader(&reftable.ByteBlockSource{Source: data}, "t")
+		if err != nil {
+			return Failf("C02/open", "NewReader: %v", err)
+		}
+		o.Nontrivial = true
+		return bulkSeeks(rd, spec.Refs, o)
+	}
 	data, st, rejected, err := WriteTable(spec)
 	if rejected {
 		o.Rejected()
